@@ -463,8 +463,9 @@ class World:
         for a in self.attempts:
             d = a.d
             if d.called and not d.paused and isinstance(d.result, Failure):
-                f = d.result
-                d.result = None
+                caught = []
+                d.addErrback(caught.append)  # consume it (the Deferred is the harness's own)
+                f = caught[0]
                 self.bad("TOTAL", "the service's handlers on the endpoint Deferred raised %s: %s"
                          % (f.type.__name__, f.value))
         n = len([a for a in self.attempts if a.state == "pending"]) + len([c for c in self.conns if c.open])
@@ -650,9 +651,9 @@ class ShortHistories(Bounded):
              "one-connection / retry-delay / waiter-deadline / stop-deadline / no-rejected-event observer")
     scope = ("all histories over {start, stop, whenConnected(None|1|2), attempt ok/fail, connection drop, "
              "clock tick to the due time, half-way tick}; configs: no prepareConnection hook, up to length "
-             "11 (quick) / 14 (thorough); with a hook (adds: hook raises, hook returns a Deferred that later "
-             "fires/fails) up to 10 / 13; both again with transports that deliver connectionLost "
-             "synchronously inside loseConnection up to 9 / 12.  Breadth-first with state hashing: a history "
+             "11 (quick) / 16 (thorough); with a hook (adds: hook raises, hook returns a Deferred that later "
+             "fires/fails) up to 10 / 15; both again with transports that deliver connectionLost "
+             "synchronously inside loseConnection up to 9 / 13.  Breadth-first with state hashing: a history "
              "is extended only if its (observer state, real service state incl. automat state) was not "
              "reached by a history that is not longer; histories end at the first violation.  Retry policy "
              "n -> 2**n; endpoint Deferred with the default canceller")
@@ -660,7 +661,7 @@ class ShortHistories(Bounded):
 
     DEPTH = {
         "quick": {"plain": 11, "hook": 10, "plain-syncclose": 9, "hook-syncclose": 9},
-        "thorough": {"plain": 14, "hook": 13, "plain-syncclose": 12, "hook-syncclose": 12},
+        "thorough": {"plain": 16, "hook": 15, "plain-syncclose": 13, "hook-syncclose": 13},
     }
 
     def __init__(self):
